@@ -63,4 +63,7 @@ def run(tier="quick", seed=0, use_cache=True):
         {"rule": "CONV-BEFORE-MUT", "obligation": "no store to self->keys/values/len in _bucket_set on a path with copied == 0"},
         {"rule": "DTYPE-TABLE", "obligation": {f: r["dtype"] for f, r in sorted(out.items())[:6]}},
     ]
+    from ..rules import convhelpers
+    convhelpers.extend(res, use_cache, ("CONV-HELPER", "TO-OBJECT"))
+    res.explanation += " CONV-HELPER: the 64-bit check/convert helpers are interpreted per argument class (not an int / in range / in-range value equal to the API's error sentinel / above / below the range) against a model of the CPython conversion APIs: accept exactly the in-range classes, store unchanged, reject with TypeError. TO-OBJECT: every integral conversion on the way into a PyLong_From* constructor is value preserving for the range the operand has on that path (read-back never wraps)."
     return res
